@@ -65,11 +65,18 @@ static MV mS(const std::string &v) {
     m.s = v;
     return m;
 }
-// what a pointer node forwards to: three pointees (an object, a string, an Undefined value)
+// what a pointer node forwards to: five pointees (an object, a string, an Undefined value, a pointer to the object and a
+// pointer to the Undefined value - chains of pointers are followed to their end)
 struct Targets {
-    MV t[3];
+    MV t[5];
 };
-static const MV &deref(const MV &m, const Targets &target) { return m.k == MV::P ? target.t[m.u] : m; }
+static const MV &deref(const MV &m, const Targets &target) {
+    const MV *p = &m;
+    while (p->k == MV::P) {
+        p = &target.t[p->u];
+    }
+    return *p;
+}
 
 static std::string mjson(const MV &m, const Targets &target, bool top);
 static void        mjson_into(const MV &m0, const Targets &target, std::string &o) {
@@ -407,6 +414,7 @@ struct VSys {
     alignas(16) unsigned char raw0[sizeof(V)], raw1[sizeof(V)], rawT[sizeof(V)];
     V  *R0, *R1, *T;
     V   TS, TU; // further pointees: a string and an Undefined value
+    V   TP, TPU; // and pointers to the object and to the Undefined value (two-step chains)
     MV  m0, m1;
     Targets mt;
     VSys() {
@@ -423,6 +431,12 @@ struct VSys {
         TS      = "ps";
         mt.t[1] = mS("ps");
         mt.t[2] = mU();
+        TP.SetPointerToValue(T);
+        mt.t[3].k = MV::P;
+        mt.t[3].u = 0;
+        TPU.SetPointerToValue(&TU);
+        mt.t[4].k = MV::P;
+        mt.t[4].u = 2;
     }
     ~VSys() {
         R0->~V();
@@ -440,6 +454,7 @@ struct VSys {
                 "=String(\"s\")", "=const String&", "=StringView", "=ArrayT&&", "=ObjectT const&",
                 "=own array (const ArrayT& alias)", "=own object (const ObjectT& alias)", "=own string (const String& alias)",
                 "=18446744073709551615u", "=\"18446744073709551615\"", "=\"12x\"",
+                "=ValueType::Null", "=ValueType::Array", "=ValueType::Object", "=ValueType::String",
                 "=own first child (const Value&)", "=move(own first child)", "+=own first element (const Value&)", "first element=whole (const Value&)",
                 "+=7u", "+=\"s\"", "+=null", "+=true", "+=2.5", "+=[] (ArrayT&&)", "+=[9,8] (ArrayT&&)", "+=[9] (const ArrayT&)", "+={c:3} (ObjectT&&)",
                 "+={a:4} (const ObjectT&)", "+=R1", "+=move(R1)", "+=String&&", "+=StringView",
@@ -448,7 +463,8 @@ struct VSys {
                 "Reset", "Compress", "Sort", "Sort desc",
                 "Get(\"b\",1)=5u", "Get(StringView \"c\")=\"s\"", "Insert(\"a\",6u)", "[StringView \"b\"]=null", "[String&& \"c\"]=true", "[const String& \"a\"]=-3",
                 "SetPointerToValue(&T)", "AddPointerToValue(&T)", "SetPointerToValue(&TS string)", "AddPointerToValue(&TS string)",
-                "AddPointerToValue(&TU undefined)",
+                "AddPointerToValue(&TU undefined)", "SetPointerToValue(&TP pointer to T)", "AddPointerToValue(&TP pointer to T)",
+                "AddPointerToValue(&TPU pointer to undefined)",
             };
             for (auto p : paths) {
                 for (auto a : acts) {
@@ -874,6 +890,20 @@ struct VSys {
                 V  &c     = X[SizeT(0)];
                 c         = (const V &)X;
                 M.items[0] = whole;
+            } else if (act == "=ValueType::Null") {
+                X = ValueType::Null; // the overload that takes a kind: the value becomes the empty value of that kind
+                M = mK(MV::N);
+            } else if (act == "=ValueType::Array") {
+                X   = ValueType::Array;
+                M   = MV();
+                M.k = MV::A;
+            } else if (act == "=ValueType::Object") {
+                X   = ValueType::Object;
+                M   = MV();
+                M.k = MV::O;
+            } else if (act == "=ValueType::String") {
+                X = ValueType::String;
+                M = mS("");
             } else if (act == "=\"12x\"") {
                 X = "12x"; // a number followed by something else is not a number
                 M = mS("12x");
@@ -1078,6 +1108,18 @@ struct VSys {
                 MV p;
                 p.k = MV::P;
                 p.u = und ? 2 : 1;
+                m_append(M, p);
+            } else if (act == "SetPointerToValue(&TP pointer to T)") {
+                X.SetPointerToValue(&TP);
+                M   = MV();
+                M.k = MV::P;
+                M.u = 3;
+            } else if (act == "AddPointerToValue(&TP pointer to T)" || act == "AddPointerToValue(&TPU pointer to undefined)") {
+                const bool und = act == "AddPointerToValue(&TPU pointer to undefined)";
+                X.AddPointerToValue(und ? &TPU : &TP);
+                MV p;
+                p.k = MV::P;
+                p.u = und ? 4 : 3;
                 m_append(M, p);
             } else {
                 return false;
